@@ -89,6 +89,10 @@ def run_shard(shard, out_base):
                     J(base[:p] + ch + base[p + 1 :], f"B2:{n}:{p}")
                 mon.tally("positions_swept")
     mon.sample({"family": "B2", "text": esc("GENODEM1G" + alpha[45] + "S")})
+    # printed labels around valid BICs
+    for _ in range(4):
+        for t in gen.labelled(rand_bic(rng)):
+            J(t, "B5label")
     # B3 lengths 0..14
     for _ in range(max(1, sz["bases"] // 2)):
         long = rand_bic(rng, None, 11) + "".join(rng.choice(R.ALNUM) for _ in range(5))
